@@ -160,6 +160,14 @@ s = m[1:4]
 k = total(s)
 j = total([c3[1], e])
 TOP = ['c1', 'c2', 'c3', 'd', 'e', 'k', 'j', 'x1', 'x2', 'sl', 'sl2', 'sl3']
+# several task generators handed to map, and many views of mapped sequences and of compounds: objects that are created anew - at other addresses - by every load
+m3 = jmap(part, [1, 2, 3], map_step=2)
+m4 = jmap(total, [[1, 2], [3], [4, 5]], map_step=1)
+sl4 = total(m3)
+sl5 = total(m4[0:2])
+for _i in range(4):
+    globals()['kv%d' % _i] = total([ml[_i], m[_i], m3[_i % 3], c3[0]])
+TOP += ['sl4', 'sl5', 'kv0', 'kv1', 'kv2', 'kv3']
 '''
 
 HIST_SCRIPT = '''
@@ -182,6 +190,14 @@ def ids(space):
         out[name] = [t.hash().decode() if hasattr(t, 'hash') else None, hash_one(t).decode()]
     return out
 
+def ids_all(space):
+    # ... and of every task of the file (comparable between loads against the same store state only)
+    import hashlib
+    out = ids(space)
+    h = hashlib.sha1(b','.join(t.hash() for t in jug.task.alltasks)).hexdigest()
+    out['<all tasks of the file, in order>'] = [h, h]
+    return out
+
 stages = {}
 store, space = load()
 stages['loaded'] = ids(space)
@@ -196,6 +212,19 @@ if sys.argv[3] == 'execute':
     stages['loaded again after execute'] = ids(space)
     store, space = load()
     stages['loaded a third time in the same interpreter'] = ids(space)
+if sys.argv[3] == 'reload-many':
+    # a worker waiting at a barrier loads its jugfile over and over in one interpreter: every load must give the identifiers of the first
+    import gc
+    first = ids_all(space)
+    stages = {'load #1 of this interpreter': first}
+    n = int(sys.argv[4])
+    for k in range(2, n + 2):
+        store, space = load()
+        gc.collect()
+        cur = ids_all(space)
+        if cur != first or k == n + 1:
+            stages['load #%d in the same interpreter' % k] = cur
+            break
 print('STAGES ' + json.dumps(stages))
 '''
 
@@ -210,9 +239,9 @@ def history_family(run):
         core.CURRENT_INPUT.clear()
         core.CURRENT_INPUT.update({'family': 'identifiers of top-level names before execute, after it, after reloading - in one interpreter and in fresh ones', 'jugfile': HIST_JUGFILE})
         stages = []
-        for seed, mode in (('5', 'execute'), ('6', 'load'), ('7', 'load')):
+        for seed, mode in (('5', 'execute'), ('6', 'load'), ('7', 'reload-many')):
             env = dict(os.environ, PYTHONPATH=core.REPO, PYTHONHASHSEED=seed, HOME='/nonexistent-home-for-jugverif')
-            p = subprocess.run([sys.executable, '-c', HIST_SCRIPT, jf, jugdir, mode], cwd=d, env=env, stdout=subprocess.PIPE, stderr=subprocess.PIPE, text=True, timeout=300)
+            p = subprocess.run([sys.executable, '-c', HIST_SCRIPT, jf, jugdir, mode, '150'], cwd=d, env=env, stdout=subprocess.PIPE, stderr=subprocess.PIPE, text=True, timeout=300)
             line = [ln for ln in p.stdout.splitlines() if ln.startswith('STAGES ')]
             if p.returncode != 0 or not line:
                 run.fail('history-raises', 'loading / executing the jugfile with compound tasks and mapped sequences fails in a fresh interpreter (%s): %s' % (mode, (p.stderr or p.stdout)[-400:]), {'kind': 'ident-history'})
@@ -224,12 +253,19 @@ def history_family(run):
         ref_name, ref = stages[0]
         for name in ref:
             for sname, ids in stages:
-                if ids[name] != ref[name]:
+                if name in ids and ids[name] != ref[name]:
                     which = 0 if ids[name][0] != ref[name][0] else 1
                     run.fail('identifier-changes-along-history', 'the identifier of the top-level name %s (%s) is %s at stage "%s" but %s at stage "%s" (same jugfile, same store)'
                              % (name, 'hash(): the key its result is stored under' if which == 0 else 'as hashed when it is an argument of another task', ref[name][which] and ref[name][which][:16], ref_name,
                                 ids[name][which] and ids[name][which][:16], sname), {'kind': 'ident-history', 'name': name, 'stage': sname})
                     return
+        allk = '<all tasks of the file, in order>'
+        many = [(sn, ids) for sn, ids in stages if allk in ids]
+        for sn, ids in many[1:]:
+            if ids[allk] != many[0][1][allk]:
+                run.fail('identifier-changes-along-history', 'the same jugfile loaded again and again against the same store in one interpreter (a worker waiting at a barrier does that): at "%s" the tasks of the file have other '
+                         'identifiers than at "%s" (digest over all of them %s vs %s)' % (sn, many[0][0], ids[allk][0][:16], many[0][1][allk][0][:16]), {'kind': 'ident-history', 'name': allk, 'stage': sn})
+                return
     finally:
         core.CURRENT_INPUT.clear()
         core.rm_rf(d)
